@@ -18,7 +18,7 @@ class McRun:
     def __init__(self, bin, harness, params=None, bound=1, mode='plain', opts=None, jobs=None, budget=60, max_execs=0, extra=None, tag=''):
         self.bin, self.harness, self.params, self.bound, self.mode = bin, harness, dict(params or {}), bound, mode
         self.opts, self.budget, self.max_execs, self.extra, self.tag = dict(opts or {}), budget, max_execs, list(extra or []), tag
-        self.jobs = jobs if jobs is not None else (4 if mode == 'plain' else 1)
+        self.jobs = jobs if jobs is not None else (4 if mode.startswith('plain') else 1)
 
     def target(self, bdir):
         return '%s/%s/%s' % (bdir, self.mode, self.bin)
